@@ -136,7 +136,7 @@ _codec_check(
     "every reader kind: Buffer, Pedantic, Log, Stream over stringstream and over a non-seekable chunked streambuf, Fd over memfd and over a pipe closed after k bytes, Bounded over each with "
     "limit beyond the data and with limit = k over the full data; tables are additionally read by a different table version that skips entries (unknown / deleted ids). Oracle: status must be "
     "an error. distinct = enumerated (value, k, reader, mode) tuples; non-trivial = k > 0.",
-    {"quick": 100000, "thorough": 1000000}, ["c05_cut_reads", "c05_cut_reads_by_other_table_version", "c05_reader_FdReader", "c05_reader_StreamReader<chunked non-seekable>"],
+    {"quick": 100000, "thorough": 1000000}, ["c05_cut_reads", "c05_cut_reads_by_other_table_version", "c05_cut_reads_of_padded_tables", "c05_reader_FdReader", "c05_reader_StreamReader<chunked non-seekable>"],
     "fault enumeration: for each generated encoding every cut position is enumerated on every reader implementation (exhaustive per encoding up to 512 bytes); types and values are sampled.",
     "fd and stream media are memfd/pipe/stringstream/custom streambuf inside one process",
     "exhaustive cut-point enumeration per encoding on every shipped reader, under ASan/UBSan",
